@@ -6,10 +6,14 @@ package main
 
 import (
 	"bufio"
+	"bytes"
 	"encoding/json"
+	"errors"
 	"flag"
 	"fmt"
+	"io/fs"
 	"os"
+	"os/exec"
 	"path/filepath"
 	"strconv"
 	"strings"
@@ -33,6 +37,13 @@ type findStats struct {
 	Exhaustive string         `json:"exhaustive_part"`
 	Samples    []string       `json:"samples"`
 	OracleFail map[string]int `json:"oracle_failures"`
+	CLIProbes  int            `json:"command_line_probes"`
+}
+
+// isPathError: the error comes from the file system (a directory that cannot be read), not from the search ending
+func isPathError(err error) bool {
+	var pe *fs.PathError
+	return errors.As(err, &pe)
 }
 
 func segPath(base string, segs []int) string {
@@ -44,13 +55,14 @@ func segPath(base string, segs []int) string {
 }
 
 func findCmd(args []string) error {
-	fs := flag.NewFlagSet("find", flag.ExitOnError)
-	out := fs.String("out", "", "")
-	tier := fs.String("tier", "quick", "")
-	_ = fs.Int64("seed", 1, "")
-	shard := fs.Int("shard", 0, "")
-	nshards := fs.Int("nshards", 1, "")
-	fs.Parse(args)
+	fls := flag.NewFlagSet("find", flag.ExitOnError)
+	out := fls.String("out", "", "")
+	tier := fls.String("tier", "quick", "")
+	_ = fls.Int64("seed", 1, "")
+	shard := fls.Int("shard", 0, "")
+	nshards := fls.Int("nshards", 1, "")
+	spokBin := fls.String("spok", "", "path to the built spok binary (for the command-line probes)")
+	fls.Parse(args)
 	sfx := fmt.Sprintf(".%d.txt", *shard)
 	fc, _ := os.Create(filepath.Join(*out, "cases"+sfx))
 	fi, _ := os.Create(filepath.Join(*out, "impl"+sfx))
@@ -113,6 +125,8 @@ func findCmd(args []string) error {
 						os.WriteFile(p, []byte("x"), 0o644)
 						if e[0] == 0 {
 							hasSpok[k] = true
+							// a loadable spokfile whose only task tells the levels apart (for the command-line probes)
+							os.WriteFile(p, []byte(fmt.Sprintf("task lvl%c() {\n    echo %d\n}\n", 'a'+k, k)), 0o644)
 						}
 					} else {
 						os.MkdirAll(p, 0o755)
@@ -149,8 +163,8 @@ func findCmd(args []string) error {
 								rel = "BADNAME:" + rel
 							}
 							resCh <- "F " + rel
-						case err.Error() == "No spokfile found":
-							resCh <- "N"
+						case !isPathError(err):
+							resCh <- "N" // whatever the wording: the search ended without a spokfile
 						default:
 							resCh <- "E"
 						}
@@ -213,6 +227,39 @@ func findCmd(args []string) error {
 						st.OracleFail["C17"]++
 						fmt.Fprintf(bo, "C17 %s Find(start=%s, stop=%s) returned %q, expected %q\n", cs, startP[len(base):], stopP[len(base):], res, want)
 					}
+					// the same question asked of the command line: `spok --show` run in the start directory with HOME = the stop
+					// directory must load that very spokfile, or fail when there is none (one case in six)
+					if *spokBin != "" && st.Cases%6 == 0 && res != "HANG" {
+						cmd := exec.Command(*spokBin, "--show")
+						cmd.Dir = startP
+						cmd.Env = []string{"HOME=" + stopP, "PATH=/usr/bin:/bin", "NO_COLOR=1"}
+						var so, se bytes.Buffer
+						cmd.Stdout, cmd.Stderr = &so, &se
+						done := make(chan error, 1)
+						if err := cmd.Start(); err == nil {
+							go func() { done <- cmd.Wait() }()
+							cli := "HANG"
+							select {
+							case err := <-done:
+								cli = "N"
+								if err == nil {
+									cli = "F ?"
+									for k := 0; k <= depth; k++ {
+										if strings.Contains(so.String(), fmt.Sprintf("lvl%c", 'a'+k)) {
+											cli = "F " + ints(chain[k])
+										}
+									}
+								}
+							case <-time.After(5 * time.Second):
+								cmd.Process.Kill()
+							}
+							st.CLIProbes++
+							if cli != want {
+								st.OracleFail["C17"]++
+								fmt.Fprintf(bo, "C17 %s `spok --show` run in %s with HOME=%s: %q, expected %q (stderr %q)\n", cs, startP[len(base):], stopP[len(base):], cli, want, strings.TrimSpace(se.String()))
+							}
+						}
+					}
 					if len(st.Samples) < 4 && depth == 2 && st.Cases%97 == 5 {
 						st.Samples = append(st.Samples, cs+" => "+res)
 					}
@@ -249,7 +296,7 @@ func findCmd(args []string) error {
 							switch {
 							case err == nil:
 								resCh <- "F " + filepath.Dir(p)
-							case err.Error() == "No spokfile found":
+							case !isPathError(err):
 								resCh <- "N"
 							default:
 								resCh <- "E"
